@@ -810,7 +810,16 @@ impl World {
                     format!("refused append issued {} storage ops ({} mutating)", ops1 - ops0, j1 - j0),
                 );
             }
-            self.expect_events(n, "refused append", &[]);
+            // C13 follows what the call actually did: a refusal announces nothing; if the core
+            // (wrongly, C12's clause) accepted the append, the usual two events are due
+            match &r {
+                Res::Ok(out) if !blocks.is_empty() => {
+                    let k = blocks.len() as u64;
+                    let exp = vec![Ev::Upgrade, Ev::Have(out.length.saturating_sub(k), k, false)];
+                    self.expect_events(n, "append", &exp);
+                }
+                _ => self.expect_events(n, "refused append", &[]),
+            }
             return;
         }
         match r {
@@ -1008,8 +1017,9 @@ impl World {
             );
         }
         if info.writeable != m.writable {
+            // writability is C12's clause (C01/C03 speak about contents and lengths only)
             self.viol(
-                &cl,
+                "C12.writeable",
                 format!("{what}: writeable {} but model {}", info.writeable, m.writable),
             );
         }
